@@ -3,6 +3,7 @@ package props
 import (
 	"fmt"
 	"regexp"
+	"sort"
 	"strings"
 
 	"ddcheck/core"
@@ -153,6 +154,49 @@ func C20(p *core.Program, r *core.Report) {
 				}
 			}
 			r.Add("F3", g.name+" is read only by the element visitor", "", ok, fmt.Sprintf("readers: %v", names))
+		}
+	}
+	// ---- F4: "below a table" means below a table at any depth: the ancestor test climbs until
+	// there is no parent left and answers true only for a matching ancestor
+	if ha := mustInl(p, r, "F4", domutilPkg+".HasAncestor"); ha != nil {
+		loops, _ := core.NaturalLoops(ha)
+		anc := `μ($0.Parent|@0.Parent)`
+		var climb *core.Loop
+		cn := core.NewCanon(p)
+		for _, l := range loops {
+			for _, in := range l.Header.Instrs {
+				if ph, ok := in.(*ssa.Phi); ok && cn.Of(ph) == anc {
+					climb = l
+				}
+			}
+		}
+		if climb == nil {
+			r.Undecided("F4", "HasAncestor: the climb over the ancestors", "no loop that starts at node.Parent and advances by .Parent")
+		} else {
+			var desc []string
+			ok := true
+			nEnd, nMatch := 0, 0
+			for _, ex := range loopExits(p, climb) {
+				desc = append(desc, fmt.Sprintf("%s=%v", ex.atom, ex.val))
+				switch {
+				case ex.atom == anc+" == nil" && ex.val:
+					nEnd++
+				case strings.HasPrefix(ex.atom, "in(") && strings.HasSuffix(ex.atom, ",dom.TagName("+anc+"))") && ex.val:
+					nMatch++
+					// the match exit answers true
+					for _, in := range ex.to.Instrs {
+						if ret, isRet := in.(*ssa.Return); isRet {
+							if bv, isC := core.ConstBool(ret.Results[0]); !isC || !bv {
+								ok = false
+							}
+						}
+					}
+				default:
+					ok = false
+				}
+			}
+			sort.Strings(desc)
+			r.Add("F4", "HasAncestor stops climbing only at the root or at a matching ancestor", p.Pos(ha.Pos()), ok && nEnd == 1 && nMatch == 1, "ways out of the climb: "+strings.Join(desc, "; "))
 		}
 	}
 }
